@@ -155,10 +155,20 @@ func runC02(c *hc.Ctx) error {
 		}
 		size := int64(1) << g.Deep
 		w := Window{G: g, X0: g.Ext[0] + (size/8+c.Rng.Int63n(size/2))*g.Res, Y0: g.Ext[1] + (size/8+c.Rng.Int63n(size/2))*g.Res, W: 2 + c.Rng.Int63n(3), Unit: max64(1, g.Res/4)}
-		if c.Rng.Intn(2) == 0 { // aligned with a coarse quadrant corner, far from the origin
+		switch c.Rng.Intn(3) {
+		case 0: // aligned with a coarse quadrant corner, far from the origin
 			q := int64(1) << (g.Deep - uint(4+c.Rng.Intn(8)))
 			w.X0 = g.Ext[0] + (size/q*3/4)*q*g.Res - g.Res
 			w.Y0 = g.Ext[1] + (size/q*3/4)*q*g.Res - g.Res
+		case 1: // straddling a border between the quadrants of levels 1-3 (the middle of the extent and its quarters),
+			// on a fine lattice: 1/64 pixel, so that vertices fall within a fraction of a pixel of the border
+			q := int64(1) << (g.Deep - uint(1+c.Rng.Intn(3)))
+			w.X0 = g.Ext[0] + (1+c.Rng.Int63n(size/q-1))*q*g.Res - g.Res
+			w.Y0 = g.Ext[1] + (1+c.Rng.Int63n(size/q-1))*q*g.Res - g.Res
+			if c.Rng.Intn(2) == 0 {
+				w.Y0 = g.Ext[1] + (size/8+c.Rng.Int63n(size/2))*g.Res
+			}
+			w.W, w.Unit = 2, max64(1, g.Res/64)
 		}
 		nh := 1 + c.Rng.Intn(8)
 		var verts []Pt
